@@ -105,11 +105,24 @@ fn var_name(spec: &PatSpec, v: u8) -> String {
 pub fn interpret(corpus: &Corpus, opts: &SrcOpts, ch: &Choice, st: &mut Stats) -> Option<Case> {
   let built = gen::build_source(corpus, &ch.src, opts);
   let lang = built.lang;
-  if built.text.contains('\t') || built.text.contains('\r') {
-    st.discard("tabs / CRLF are outside the stated indentation rule");
+  if built.text.contains('\r') {
+    st.discard("CRLF is outside the stated indentation rule");
     return None;
   }
-  let text = reindent(&built.text, ch.site_indent as usize);
+  let mut text = reindent(&built.text, ch.site_indent as usize);
+  // TAB-indented variant: every leading space becomes a TAB. TABs are not indentation for the
+  // replacer (only spaces at the line start count), so captured text must come out verbatim.
+  if ch.site_indent % 5 == 3 && !matches!(lang, SupportLang::Yaml) {
+    text = text
+      .split('\n')
+      .map(|l| {
+        let n = l.len() - l.trim_start_matches(' ').len();
+        format!("{}{}", "\t".repeat(n), &l[n..])
+      })
+      .collect::<Vec<_>>()
+      .join("\n");
+    st.label("tab_indented_source");
+  }
   let sg = parse(lang, &text);
   let cands = pat::cut_candidates(&text, sg.root().get_ts_node(), 400);
   if cands.is_empty() {
@@ -121,8 +134,23 @@ pub fn interpret(corpus: &Corpus, opts: &SrcOpts, ch: &Choice, st: &mut Stats) -
   } else {
     cands
   };
+  // content mode: the capture is a run that starts with a white-space-led, multi-line content node
+  // (block comment / string / template content): its first line's leading spaces are content
+  let spacey_child = |c: &tree_sitter::Node| {
+    tsutil::children(c).iter().any(|k| {
+      let t = tsutil::text(&text, k);
+      k.is_named() && t.starts_with(' ') && t.contains('\n')
+    })
+  };
+  let content_mode = ch.site_indent % 4 == 1 && cands.iter().any(|c| spacey_child(c));
+  let cands: Vec<_> = if content_mode { cands.into_iter().filter(|c| spacey_child(c)).collect() } else { cands };
   let n = &cands[ch.node.index(cands.len())];
-  let mut spec = pat::cut_pattern_pref(&text, n, &ch.holes, ch.run, prefer_ml);
+  let mut spec = if content_mode {
+    st.label("content_capture_mode");
+    pat::cut_pattern_pref(&text, n, &[], Some(ch.run.unwrap_or((ch.node, ch.node))), 2)
+  } else {
+    pat::cut_pattern_pref(&text, n, &ch.holes, ch.run, prefer_ml as u8)
+  };
   let ok_plain = pat::build(&spec, lang)
     .map(|p| pat::shape_matches(&text, &spec, &p.node, n).is_ok())
     .unwrap_or(false);
